@@ -147,8 +147,14 @@ func runC15(c *Ctx) {
 			kind = fmt.Sprintf("segment %d char %d %c->%c", si, i, old, bs[i])
 			// base64 slack: the last character of a segment has unused low bits
 			if a, e1 := codec.UnB64(segs[si]); e1 == nil {
-				if b2, e2 := codec.UnB64(string(bs)); e2 == nil && string(a) == string(b2) && si != 0 {
+				if b2, e2 := codec.UnB64(string(bs)); e2 == nil && string(a) == string(b2) {
+					// the same octets in a non-canonical spelling.  For the protected header
+					// the authenticated data is, by the letter of JWE, the text as given;
+					// go-jose re-encodes the decoded header: not asserted either way
 					expect = 200
+					if si == 0 {
+						expect = 0
+					}
 					kind += " (same bytes)"
 				}
 			}
